@@ -166,10 +166,6 @@ func Load(configfile string, basepath string) (*ConfigType, error) {
 		configfile = fileSetup[cfKey_configfile]
 	}
 
-	if err := patchPaths(setup); err != nil {
-		return nil, err
-	}
-
 	defaultSetup := defaultSettingSetup()
 	mergeSettingSetup(setup, defaultSetup)
 	if err := patchPaths(setup); err != nil {
